@@ -4,8 +4,23 @@ import json, os, sys
 sys.path.insert(0, os.path.dirname(os.path.dirname(os.path.abspath(__file__))))
 from qv.manifest_data import CHECKS, NOT_APPLICABLE, NOTES
 
+from qv.imports import IMPORTS
+
+
+def adopted(pid):
+    """one sentence naming the rules of other properties this check also runs (qv/imports.py holds the argument for each)"""
+    parts = []
+    for origin, rules, keys, reason in IMPORTS.get(pid, []):
+        parts.append("%s/%s%s" % (origin, "+".join(rules) if rules else "all rules", " (instances matching %s)" % keys if keys else ""))
+    if not parts:
+        return ""
+    return (" Also runs, as necessary conditions of this property, rules adopted from the properties it is built on: %s; their reports appear as <origin>.<rule> and findings "
+            "already recorded under the origin property are listed there only (qv/imports.py gives the argument for each adoption)." % ", ".join(parts))
+
+
 checks = []
 for pid, c in sorted(CHECKS.items()):
+    c = dict(c, level=c["level"] + adopted(pid))
     checks.append({
         "property_id": pid,
         "quick_cmd": "./check %s --tier quick" % pid,
